@@ -746,6 +746,8 @@ fn generate(rng: &mut Rng, tier: &str, w: &mut CaseWriter) {
     }
     // deepening round 2 (appended last so that the draws of the older kinds are unchanged)
     generate_part4(rng, tier, w);
+    // deepening round 4 (appended last again)
+    generate_part5(rng, tier, w);
 }
 
 fn main() {
